@@ -169,7 +169,19 @@ def check_fresh_case(case):
     K = gen.mk_kripke(kdata)
     SK = sem.SpecK.of(K)
     has_none = None in SK.states
-    for t in ts:
+    # the same structure with its labelling installed through replace_labelling_function, plus a key that is not a state
+    # and carries every atom in sight: the result must still be a set of STATES and no internal error may surface
+    K3 = None
+    if isinstance(kdata[2], dict):
+        K3 = gen.mk_kripke((kdata[0], kdata[1], {}))
+        L3 = dict((s_, set(l_)) for s_, l_ in kdata[2].items() if s_ in SK.states)
+        extra = set(a_ for l_ in kdata[2].values() for a_ in l_) | set(['p', 'q'])
+        for t_ in ts:
+            extra |= set(trees.atoms_of(t_))
+        L3[('#not-a-state',)] = extra
+        if call(K3.replace_labelling_function, L3)[0] != 'ok':
+            K3 = None
+    for ti, t in enumerate(ts):
         atoms = trees.atoms_of(t)
         collision = any(a.startswith('[') for a in atoms)
         attrs = {'logic': logic, 'none_state': has_none, 'fresh_atom_collision': collision}
@@ -207,6 +219,14 @@ def check_fresh_case(case):
         if deep_snapshot(K) != snap:
             bad('modelcheck:frame:kripke', 'the Kripke structure was modified')
             K = gen.mk_kripke(kdata)
+        if K3 is not None and not has_none and not collision:
+            r3 = call(L.modelcheck, K3, trees.build(L, t))
+            if r3[0] != 'ok':
+                bad('modelcheck:raises:internal', 'after replace_labelling_function(the same labels + a key that is not a state) raised %s (%s)' % (r3[1], r3[2]))
+            elif type(r3[1]) is not set or not r3[1] <= set(SK.states):
+                bad('modelcheck:ensures:subset_of_states', 'after replace_labelling_function(the same labels + a key that is not a state) returned %r' % (r3[1],))
+            elif r3[1] != exp:
+                bad('modelcheck:ensures:exact', 'after replace_labelling_function(the same labels + a key that is not a state) returned %r, the semantics gives %r' % (r3[1], exp))
     return {'fails': fails, 'n': len(ts), 'keys': keys}
 
 
